@@ -59,6 +59,8 @@ dbus_bool_t bus_client_policy_check_can_send (BusClientPolicy *policy, BusRegist
 dbus_bool_t bus_client_policy_check_can_receive (BusClientPolicy *policy, BusRegistry *registry, dbus_bool_t requested_reply, DBusConnection *sender, DBusConnection *addressed, DBusConnection *proposed, DBusMessage *message, dbus_int32_t *toggles)
 { PRE(policy != NULL && toggles != NULL, "bus_client_policy_check_can_receive"); dbus_bool_t r = nondet_bool(); *toggles = nondet_int();
   G.recv_checks++; G.recv_result = r; G.recv_rr = (requested_reply != 0); G.recv_policy_used = policy; return r; }
+/* whether a peer's socket is still open is arbitrary and no reason to skip any step of the gate (not consulted by the unchanged code) */
+dbus_bool_t dbus_connection_get_is_connected (DBusConnection *c) { return nondet_bool (); }
 long dbus_connection_get_outgoing_size (DBusConnection *c) { PRE(c == g_the_recipient, "dbus_connection_get_outgoing_size: the proposed recipient"); return g_out_size; }
 long dbus_connection_get_outgoing_unix_fds (DBusConnection *c) { PRE(c == g_the_recipient, "dbus_connection_get_outgoing_unix_fds: the proposed recipient"); return g_out_fds; }
 /* the gate decides, it never sends: any call of a send primitive from it is a violation ("a denied message is delivered to no one") */
